@@ -225,7 +225,11 @@ class SqliteQueue(SqliteDLQMixin, Queue):
             return None
 
         message.message_id = str(msg_id)
-        message.attempts = attempts + 1
+        # Attempts so far (0-indexed, as RunTask's retry limit expects): the
+        # count carried by a re-queued retry copy plus earlier deliveries of
+        # this row. Overwriting it with the row's delivery count alone reset
+        # the counter on every retry, so transient failures retried forever.
+        message.attempts = (message.attempts or 0) + attempts
 
         self._pending[msg_id] = {
             "message": message,
